@@ -312,7 +312,20 @@ def run_shard(ctx):
             gen = gen_dsl.Gen(rng, shared_props=0.5 if idx % 12 == 0 else 0.0,
                               explicit_required=0.5, renames=0.4, inheritance=0.4,
                               pattern_overlap=0.6 if idx % 4 == 1 else 0.0)
-            if idx % 5 == 0:
+            if idx % 10 == 7:
+                # a composition whose FIRST member hands the caller's own object back (`not` does), followed by
+                # members that would fill in defaults: whatever is "merged" must not land in the input
+                filler = {"t": "Element", "kw": {"properties": {
+                    name: {"el": {"t": "Element", "kw": {"default": rng.choice([1, "d", [0], {"k": 1}])}},
+                           "required": False, "source": None}
+                    for name in rng.sample(["size", "a", "b", "zz"], k=2)}}}
+                first = rng.choice([{"t": "Not", "kw": {}, "element": {"t": "Null", "kw": {}}},
+                                    {"t": "Element", "kw": {}},
+                                    {"t": "Not", "kw": {}, "element": {"t": "String", "kw": {}}}])
+                spec = {"t": rng.choice(["AllOf", "AllOf", "AnyOf", "OneOf"]), "kw": {},
+                        "elements": [first, filler] + ([gen.spec(1)] if rng.random() < 0.3 else [])}
+                ctx.count("trees.passthrough_first_member")
+            elif idx % 5 == 0:
                 spec = gen.family(2, levels=rng.choice([2, 2, 3]))
                 ctx.count("trees.root_is_subclass")
             else:
